@@ -425,11 +425,15 @@ Proof. unfold shift_raw_window, shift_window, get_time_window_from_vec, get_time
 
 
 
+Lemma latest_valid_eq s : latest_valid s = latest_is_date s.
+Proof. unfold latest_valid, latest_is_date, is_some, is_none. destruct (sh_latest s) as [l|]; [destruct (tm_val l)|]; reflexivity. Qed.
+
 Lemma e1302_ok d : check_e1302 d = Some (viol_1302 d).
 Proof.
-  unfold check_e1302, viol_1302. f_equal. apply existsb_ext_in. intros v _. f_equal.
-  unfold check_raw_time_windows, get_time_windows. rewrite map_map, check_time_windows_spec.
-  rewrite (map_ext _ _ shift_window_eq). now destruct (v_shifts v).
+  unfold check_e1302, viol_1302. f_equal. apply existsb_ext_in. intros v _. rewrite negb_andb. f_equal.
+  - f_equal. unfold check_raw_time_windows, get_time_windows. rewrite map_map, check_time_windows_spec.
+    rewrite (map_ext _ _ shift_window_eq). now destruct (v_shifts v).
+  - rewrite negb_forallb. apply existsb_ext_in. intros s _. now rewrite latest_valid_eq.
 Qed.
 
 Lemma shift_span_eq s : get_shift_time_window s = shift_span s.
@@ -454,7 +458,8 @@ Qed.
 Lemma break_tws_spec s bs : break_tws s bs = break_windows s bs.
 Proof.
   induction bs as [|b bs IH]; [reflexivity|]. cbn [break_tws break_windows flat_map]. fold (break_windows s bs).
-  rewrite <- IH. destruct b as [w|o|e l dur|e l dur]; cbn [break_tw app]; reflexivity.
+  rewrite <- IH. destruct b as [w|o|e l dur|e l dur]; cbn [break_tw app]; try reflexivity.
+  destruct (List.length o =? 2)%nat; reflexivity.
 Qed.
 
 
@@ -545,8 +550,7 @@ Definition spec_result (d : doc) : vres :=
   match filter (fun c => violates c d) (map fst all_checks) with [] => VOk | cs => VErr cs end.
 
 Lemma known_false d : known d = false ->
-  k4_start_latest_bad d = false /\ k5_offset_arity d = false /\ k6_capacity_empty d = false /\ k7_over8 d = false /\
-  k8_empty_demand_vectors d = false /\ k9_no_vehicles d = false /\ k10_no_profiles d = false.
+  k6_capacity_empty d = false /\ k7_over8 d = false /\ k8_empty_demand_vectors d = false /\ k9_no_vehicles d = false.
 Proof.
   unfold known, known_table. cbn [existsb snd]. intros H.
   repeat (apply orb_false_iff in H; destruct H as [? H]). repeat split; assumption.
@@ -554,7 +558,7 @@ Qed.
 
 Lemma checks_agree d : known d = false -> forall c f, In (c, f) all_checks -> f d = Some (violates c d).
 Proof.
-  intros Hk c f Hin. destruct (known_false d Hk) as (H4 & H5 & H6 & H7 & H8 & H9 & H10).
+  intros Hk c f Hin. destruct (known_false d Hk) as (H6 & H7 & H8 & H9).
   unfold all_checks, jobs_checks, vehicles_checks, routing_checks in Hin. cbn [app In] in Hin.
   repeat (destruct Hin as [Hin|Hin]; [inversion Hin; subst c f; clear Hin|]); [..|contradiction].
   - change (violates 1100 d) with (viol_1100 d). apply e1100_ok.
@@ -649,26 +653,28 @@ Section Safe.
 
   Lemma shifts_parse v : In v (d_vehicles d) ->
     v_shifts v <> [] /\ forall s, In s (v_shifts v) ->
-      tm_bad (sh_earliest s) = false /\ match sh_end s with Some e => tm_bad e | None => false end = false.
+      tm_bad (sh_earliest s) = false /\ match sh_end s with Some e => tm_bad e | None => false end = false
+      /\ match sh_latest s with Some l => tm_bad l | None => false end = false.
   Proof.
     intros Hin. unfold viol_1302 in H1302. rewrite existsb_false in H1302. specialize (H1302 v Hin). cbn beta in H1302.
-    apply negb_false_iff in H1302. apply andb_prop in H1302. destruct H1302 as [Hne Hok]. split.
+    apply orb_false_iff in H1302. destruct H1302 as [H1302a Hlat].
+    apply negb_false_iff in H1302a. apply andb_prop in H1302a. destruct H1302a as [Hne Hok]. split.
     - now destruct (v_shifts v).
     - intros s Hs. destruct (windows_ok_all_some _ _ Hok (shift_window s) (in_map _ _ _ Hs)) as (w & Hw & _).
-      unfold shift_window in Hw. unfold tm_bad, is_none.
-      destruct (tm_val (sh_earliest s)); [|discriminate]. destruct (sh_end s) as [e|]; [|auto].
-      destruct (tm_val e); [auto|discriminate].
+      rewrite existsb_false in Hlat. specialize (Hlat s Hs). cbn beta in Hlat. apply negb_false_iff in Hlat.
+      unfold latest_is_date in Hlat. unfold shift_window in Hw. unfold tm_bad, is_none.
+      destruct (tm_val (sh_earliest s)); [|discriminate]. split; [reflexivity|]. split.
+      + destruct (sh_end s) as [e|]; [|auto]. destruct (tm_val e); [auto|discriminate].
+      + destruct (sh_latest s) as [l|]; [|reflexivity]. destruct (tm_val l); [reflexivity|discriminate].
   Qed.
 
   Lemma fleet_safe : fleet_panics d = false.
   Proof.
-    destruct (known_false d Hk) as (H4 & _ & H6 & H7 & _ & H9 & _).
+    destruct (known_false d Hk) as (H6 & H7 & _ & H9).
     unfold fleet_panics. apply orb_false_iff. split; [apply orb_false_iff; split|].
     - exact H1505.
     - apply existsb_false. intros v Hin. apply existsb_false. intros s Hs.
-      destruct (shifts_parse v Hin) as [_ Hp]. destruct (Hp s Hs) as [He Hend]. rewrite He, Hend. cbn [orb].
-      unfold k4_start_latest_bad in H4. rewrite existsb_false in H4. specialize (H4 v Hin). cbn beta in H4.
-      rewrite existsb_false in H4. specialize (H4 s Hs). cbn beta in H4. unfold tm_bad. rewrite H4. cbn [orb].
+      destruct (shifts_parse v Hin) as [_ Hp]. destruct (Hp s Hs) as (He & Hend & Hlat). rewrite He, Hend, Hlat. cbn [orb].
       unfold k6_capacity_empty in H6. rewrite existsb_false in H6. specialize (H6 v Hin). cbn beta in H6.
       unfold k7_over8 in H7. apply orb_false_iff in H7. destruct H7 as [H7 _]. rewrite existsb_false in H7.
       specialize (H7 v Hin). cbn beta in H7. unfold over8. rewrite H7, H6. now destruct (has_multi_dimen_capacity d), (v_ids v).
@@ -707,7 +713,7 @@ Section Safe.
 
   Lemma jobs_safe : jobs_panic d = false.
   Proof.
-    destruct (known_false d Hk) as (_ & _ & _ & H7 & _).
+    destruct (known_false d Hk) as (_ & H7 & _).
     unfold jobs_panic. apply existsb_false. intros j Hj. apply existsb_false. intros t Ht.
     rewrite (k7_jobs d H7 j Hj t Ht). cbn [orb]. apply existsb_false. intros p Hp.
     unfold viol_1103 in H1103. rewrite existsb_false in H1103. specialize (H1103 j Hj). cbn beta in H1103.
@@ -719,7 +725,6 @@ Section Safe.
 
   Lemma conditional_safe : conditional_panic d = false.
   Proof.
-    destruct (known_false d Hk) as (_ & H5 & _).
     unfold conditional_panic. apply existsb_false. intros v Hin. destruct (v_ids v) as [|vid vids]; [reflexivity|].
     apply existsb_false. intros s Hs. apply orb_false_iff. split.
     - apply existsb_false. intros b Hb. destruct (sh_breaks s) as [bs|] eqn:Eb; [|destruct Hb]. cbn [olist] in Hb.
@@ -727,9 +732,10 @@ Section Safe.
       + destruct (breaks_some v s bs (parse_window w) Hin Hs Eb) as (x & Hx).
         * unfold break_windows. apply in_flat_map. exists (BOptTW w). split; [exact Hb|now left].
         * now apply (parse_window_some w x).
-      + unfold k5_offset_arity in H5. rewrite existsb_false in H5. specialize (H5 v Hin). cbn beta in H5.
-        rewrite existsb_false in H5. specialize (H5 s Hs). cbn beta in H5. rewrite Eb in H5.
-        rewrite existsb_false in H5. exact (H5 _ Hb).
+      + (* an offset list that is not a pair contributes the invalid window None to E1303 (7653bff) *)
+        destruct (List.length o =? 2)%nat eqn:El; [reflexivity|]. exfalso.
+        destruct (breaks_some v s bs None Hin Hs Eb) as (x & Hx); [|discriminate].
+        unfold break_windows. apply in_flat_map. exists (BOptOff o). split; [exact Hb|]. rewrite El. now left.
     - apply existsb_false. intros r Hr. destruct (sh_reloads s) as [rs|] eqn:Er; [|destruct Hr]. cbn [olist] in Hr.
       unfold times_panic. destruct (rl_times r) as [tws|] eqn:Et; [|reflexivity]. cbn [olist].
       apply existsb_false. intros w Hw.
@@ -743,12 +749,13 @@ Section Safe.
 End Safe.
 
 (* ---------- the three clauses of the property, outside the known classes ---------- *)
-Lemma approx_ok d : known d = false -> approx_panics d = false.
-Proof. intros Hk. destruct (known_false d Hk) as (_ & _ & _ & _ & _ & _ & H10). exact H10. Qed.
+(* since 11fbd19 the step in front of validation cannot panic on a reduced document (no explicit speeds) *)
+Lemma approx_ok d : approx_panics d = false.
+Proof. unfold approx_panics, pre_validation_panics. cbn [existsb]. apply andb_false_r. Qed.
 
 Lemma read_total_l d : known d = false -> read d <> RPanic.
 Proof.
-  intros Hk. unfold read, validate_approx. rewrite (approx_ok d Hk), (validate_spec d Hk).
+  intros Hk. unfold read, validate_approx. rewrite (approx_ok d), (validate_spec d Hk).
   destruct (spec_result_cases d) as [[E Hv]|(cs & E & _)]; rewrite E; [|discriminate].
   now rewrite (reader_safe d Hk Hv).
 Qed.
@@ -756,7 +763,7 @@ Qed.
 Lemma accept_iff_l d : known d = false ->
   (read d = ROk <-> forall c, In c gen_doc_validation -> violates c d = false).
 Proof.
-  intros Hk. unfold read, validate_approx. rewrite (approx_ok d Hk), (validate_spec d Hk).
+  intros Hk. unfold read, validate_approx. rewrite (approx_ok d), (validate_spec d Hk).
   destruct (spec_result_cases d) as [[E Hv]|(cs & E & Hne & Hcs)]; rewrite E.
   - rewrite (reader_safe d Hk Hv). split; [intros _ c _|reflexivity].
     destruct (in_dec Z.eq_dec c (map fst all_checks)) as [Hin|Hout]; [now apply Hv|].
@@ -772,7 +779,7 @@ Qed.
 Lemma codes_exact_l d cs : known d = false -> read d = RErr cs ->
   cs <> [] /\ NoDup cs /\ forall c, In c cs <-> In c gen_doc_validation /\ violates c d = true.
 Proof.
-  intros Hk. unfold read, validate_approx. rewrite (approx_ok d Hk), (validate_spec d Hk).
+  intros Hk. unfold read, validate_approx. rewrite (approx_ok d), (validate_spec d Hk).
   destruct (spec_result_cases d) as [[E Hv]|(cs' & E & Hne & Hcs)]; rewrite E.
   - now rewrite (reader_safe d Hk Hv).
   - intros H. inversion H; subst cs'. clear H. split; [exact Hne|]. split.
@@ -793,13 +800,20 @@ Qed.
 (* ---------- the step before validation when no matrix is supplied ---------- *)
 Lemma prevalidation_l :
   (forall profiles speeds, pre_validation_panics true profiles speeds = false)
-  /\ (forall profiles speeds, profiles <> [] -> (forall s, In s speeds -> 0 < s) -> pre_validation_panics false profiles speeds = false)
-  /\ (forall d, approx_panics d = pre_validation_panics false (d_profiles d) []).
+  /\ (forall has_indices speeds, pre_validation_panics has_indices [] speeds = false)
+  /\ (forall has_indices profiles speeds, (forall s, In s speeds -> 0 < s) -> pre_validation_panics has_indices profiles speeds = false)
+  /\ (forall profiles speeds, pre_validation_panics false profiles speeds = true <-> profiles <> [] /\ exists s, In s speeds /\ s <= 0)
+  /\ (forall d, approx_panics d = false).
 Proof.
-  split; [reflexivity|split].
-  - intros profiles speeds Hp Hs. unfold pre_validation_panics. destruct profiles as [|p0 ps]; [congruence|]. cbn [negb is_nil andb orb].
-    apply existsb_false. intros s Hin. apply Z.leb_gt. now apply Hs.
-  - intros d. unfold approx_panics, pre_validation_panics. now destruct (d_profiles d).
+  split; [reflexivity|split; [|split; [|split]]].
+  - intros has_indices speeds. unfold pre_validation_panics. cbn [is_nil negb]. now rewrite andb_false_r.
+  - intros has_indices profiles speeds Hs. unfold pre_validation_panics.
+    assert (He : existsb (fun s => s <=? 0) speeds = false) by (apply existsb_false; intros s Hin; apply Z.leb_gt; now apply Hs).
+    rewrite He. apply andb_false_r.
+  - intros profiles speeds. unfold pre_validation_panics. cbn [negb andb]. rewrite andb_true_iff, existsb_exists. split.
+    + intros [Hp (s & Hin & Hs)]. split; [destruct profiles; [discriminate|congruence]|]. exists s. split; [exact Hin|now apply Z.leb_le].
+    + intros [Hp (s & Hin & Hs)]. split; [destruct profiles; [congruence|reflexivity]|]. exists s. split; [exact Hin|now apply Z.leb_le].
+  - exact approx_ok.
 Qed.
 
 (* ---------- create_transport_costs: the errorCodes loop ---------- *)
@@ -842,17 +856,21 @@ Proof.
 Qed.
 
 Lemma matrix_step_spec_l m :
-  (matrix_data m = None <-> exists ec, m_errors m = Some ec /\ no_data 0 ec (m_travel m) (m_dist m))
+  (matrix_data m = None <-> exists ec, m_errors m = Some ec /\
+        ((List.length ec < List.length (m_dist m))%nat \/ no_data 0 ec (m_travel m) (m_dist m)))
   /\ (forall ec x y, m_errors m = Some ec -> matrix_data m = Some (x, y) ->
-        List.length x = List.length ec /\ List.length y = List.length ec)
+        List.length x = List.length ec /\ List.length y = List.length ec /\ (List.length (m_dist m) <= List.length ec)%nat)
   /\ (m_errors m = None -> matrix_data m = Some (m_travel m, m_dist m)).
 Proof.
   unfold matrix_data. destruct (m_errors m) as [ec|].
-  - split; [|split].
+  - destruct (Nat.ltb_spec (List.length ec) (List.length (m_dist m))) as [Hlt|Hge]; split; [|split| |split].
+    + split; [intros _|reflexivity]. exists ec. split; [reflexivity|now left].
+    + discriminate.
+    + discriminate.
     + split.
-      * intros H. exists ec. split; [reflexivity|]. now apply error_loop_none.
-      * intros (ec' & E & H). inversion E; subst. now apply error_loop_none.
-    + intros ec' x y E H. inversion E; subst. exact (error_loop_some _ _ _ _ _ _ H).
+      * intros H. exists ec. split; [reflexivity|]. right. now apply error_loop_none.
+      * intros (ec' & E & [H|H]); inversion E; subst; [lia|]. now apply error_loop_none.
+    + intros ec' x y E H. inversion E; subst. destruct (error_loop_some _ _ _ _ _ _ H) as [Hx Hy]. repeat split; assumption.
     + discriminate.
   - split; [|split].
     + split; [discriminate|]. intros (ec & E & _). discriminate.
@@ -912,10 +930,13 @@ Proof. repeat split; vm_compute; reflexivity. Qed.
 
 
 
-Lemma k4_witness : k4_start_latest_bad w_k4 = true /\ breaks_no_rule w_k4 /\ validate w_k4 = VOk /\ read w_k4 = RPanic.
-Proof. split; [|split; [apply breaks_no_rule_dec|split]]; vm_compute; reflexivity. Qed.
-Lemma k5_witness : k5_offset_arity w_k5 = true /\ breaks_no_rule w_k5 /\ validate w_k5 = VOk /\ read w_k5 = RPanic.
-Proof. split; [|split; [apply breaks_no_rule_dec|split]]; vm_compute; reflexivity. Qed.
+(* K4, K5, K10 were repaired in /repo (d67b161, 7653bff, 11fbd19): their former witnesses are now rejected with the documented codes,
+   by validation itself *)
+Lemma fixed_regression2_l :
+  known w_k4 = false /\ validate w_k4 = VErr [1302] /\ read w_k4 = RErr [1302]
+  /\ known w_k5 = false /\ validate w_k5 = VErr [1303] /\ read w_k5 = RErr [1303]
+  /\ known w_k10 = false /\ violates 1501 w_k10 = true /\ read w_k10 = RErr [1501; 1505].
+Proof. repeat split; vm_compute; reflexivity. Qed.
 Lemma k6_witness : k6_capacity_empty w_k6 = true /\ breaks_no_rule w_k6 /\ validate w_k6 = VOk /\ read w_k6 = RPanic.
 Proof. split; [|split; [apply breaks_no_rule_dec|split]]; vm_compute; reflexivity. Qed.
 Lemma k7_witness : k7_over8 w_k7 = true /\ breaks_no_rule w_k7 /\ validate w_k7 = VOk /\ read w_k7 = RPanic.
@@ -924,5 +945,56 @@ Lemma k8_witness : k8_empty_demand_vectors w_k8 = true /\ read w_k8 = RErr [1102
 Proof. repeat split; vm_compute; reflexivity. Qed.
 Lemma k9_witness : k9_no_vehicles w_k9 = true /\ breaks_no_rule w_k9 /\ validate w_k9 = VOk /\ read w_k9 = RPanic.
 Proof. split; [|split; [apply breaks_no_rule_dec|split]]; vm_compute; reflexivity. Qed.
-Lemma k10_witness : k10_no_profiles w_k10 = true /\ violates 1501 w_k10 = true /\ read w_k10 = RPanic.
-Proof. repeat split; vm_compute; reflexivity. Qed.
+
+(* create_transport_costs only succeeds with square cost vectors of one common size (17fc8e9) that cover the distances given (f7d2f27) *)
+Lemma sequence_some {A} (l : list (option A)) : forall r, sequence l = Some r -> Forall2 (fun o x => o = Some x) l r.
+Proof.
+  induction l as [|[a|] l IH]; intros r H; cbn [sequence] in H.
+  - inversion H. constructor.
+  - destruct (sequence l) as [r'|]; [|discriminate]. inversion H. constructor; [reflexivity|now apply IH].
+  - discriminate.
+Qed.
+Lemma forall2_map_l {A B C} (f : A -> B) (P : B -> C -> Prop) l : forall r, Forall2 P (map f l) r -> Forall2 (fun a c => P (f a) c) l r.
+Proof.
+  induction l as [|a l IH]; intros r H; inversion H; subst; constructor; [assumption|now apply IH].
+Qed.
+Lemma forall2_len {A B} (P : A -> B -> Prop) l r : Forall2 P l r -> List.length l = List.length r.
+Proof. induction 1; cbn [List.length]; congruence. Qed.
+Lemma forall2_in_l {A B} (P : A -> B -> Prop) l r : Forall2 P l r -> forall a, In a l -> exists b, In b r /\ P a b.
+Proof.
+  induction 1 as [|a b l r Hab _ IH]; intros x Hx; [destruct Hx|]. destruct Hx as [<-|Hx].
+  - exists b. split; [now left|assumption].
+  - destruct (IH x Hx) as (y & Hy & Hp). exists y. split; [now right|assumption].
+Qed.
+
+Lemma transport_ok_square_l profiles ms size lens : create_transport_costs profiles ms = TOk size lens ->
+  List.length lens = List.length ms /\ (forall l, In l lens -> l = (size * size)%nat)
+  /\ (forall m, In m ms -> (List.length (m_dist m) <= size * size)%nat).
+Proof.
+  unfold create_transport_costs. intros H.
+  destruct (negb (forallb (fun m => is_some (m_profile m)) ms) && negb (forallb (fun m => is_none (m_profile m)) ms)); [discriminate|].
+  destruct (List.length ms <? List.length (dedup_from [] profiles))%nat; [discriminate|].
+  destruct (sequence (map matrix_data ms)) as [datas|] eqn:Hseq; [|discriminate].
+  match type of H with (if ?c then _ else _) = _ => destruct c; [discriminate|] end.
+  destruct datas as [|d0 datas']; [discriminate|]. set (datas := d0 :: datas') in *.
+  cbv zeta in H.
+  repeat match type of H with (if ?c then _ else _) = _ => let E := fresh "E" in destruct c eqn:E; [discriminate|] end.
+  injection H as <- <-.
+  apply sequence_some, forall2_map_l in Hseq.
+  match goal with Hsq : existsb (fun d : list Z * list Z => negb (List.length (snd d) =? _)%nat || _) datas = false |- _ =>
+    rename Hsq into Hsquare end.
+  rewrite existsb_false in Hsquare.
+  assert (Hd : forall d, In d datas -> List.length (snd d) = (round_sqrt (List.length (fst d0)) * round_sqrt (List.length (fst d0)))%nat
+                                      /\ List.length (fst d) = (round_sqrt (List.length (fst d0)) * round_sqrt (List.length (fst d0)))%nat).
+  { intros d Hin. specialize (Hsquare d Hin). cbn beta in Hsquare. apply orb_false_iff in Hsquare. destruct Hsquare as [Ha Hb].
+    apply negb_false_iff, Nat.eqb_eq in Ha, Hb. split; assumption. }
+  split; [|split].
+  - change (List.length (map (fun d : list Z * list Z => List.length (fst d)) datas) = List.length ms).
+    rewrite map_length. symmetry. exact (forall2_len _ _ _ Hseq).
+  - intros l Hl. change (In l (map (fun d : list Z * list Z => List.length (fst d)) datas)) in Hl. apply in_map_iff in Hl. destruct Hl as (d & <- & Hin). now apply Hd.
+  - intros m Hm. destruct (forall2_in_l _ _ _ Hseq m Hm) as (d & Hin & Hmd). destruct (Hd d Hin) as [Hsnd Hfst].
+    destruct (matrix_step_spec_l m) as (_ & Hsome & Hnone). destruct d as [x y]. cbn [fst snd] in *.
+    destruct (m_errors m) as [ec|] eqn:Ee.
+    + destruct (Hsome ec x y eq_refl Hmd) as (_ & Hy & Hle). lia.
+    + rewrite (Hnone eq_refl) in Hmd. inversion Hmd; subst. lia.
+Qed.
